@@ -77,6 +77,11 @@ Theorem c17_armed_delay_in_band : forall o c0 x0 s d el f,
   lo (normalize o) (cur s) <= d <= hi (normalize o) (cur s).
 Proof. exact armed_in_band. Qed.
 
+(** The options (hence the whole schedule) are those given to Start, normalised,
+    whatever the context — live, cancelled, or about to expire — and for ever. *)
+Theorem c17_options_fixed : forall o c0 x0 s, reachable o c0 x0 s -> ropts s = normalize o.
+Proof. exact options_fixed. Qed.
+
 (** Reset (closer open, context live) brings back the state of a fresh Start,
     and from there every continuation behaves as from a fresh Start. *)
 Theorem c17_reset_restores : forall o s,
